@@ -247,6 +247,40 @@ MUTATIONS += [
     ("opt-fqp-divfqp-noinv", O, "FQP.__div__", "self * other.inv()", "self * other", 0),
 ]
 
+# Mutations of the REFACTORED spellings (refactorings/C08-g5-inv-mul-local-cleanup, C14-g5-fq2-fq12-init-extract-helper,
+# C20-g5-sgn0-guard-clauses): run with `--refactored --repo <snapshot with the patch applied>`; entries whose token does
+# not occur in the given tree are skipped.  They check that the normalisations of the translator and the reshaping-
+# tolerant tie proofs still reject real changes.
+REFACTORED = [
+    ("rf-pfi-sign", U, "prime_field_inv", "high_coeff - low_coeff * quotient", "high_coeff + low_coeff * quotient", 0),
+    ("rf-pfi-swap", U, "prime_field_inv", "low, high = high - low * quotient, low", "low, high = high - low * quotient, high", 0),
+    ("rf-pfi-init", U, "prime_field_inv", "low, high = a, n", "low, high = a + n, n", 0),
+    ("rf-pfi-ret", U, "prime_field_inv", "return low_coeff % n", "return high_coeff % n", 0),
+    ("rf-pfi-coeffs", U, "prime_field_inv", "low_coeff, high_coeff = 1, 0", "low_coeff, high_coeff = 0, 1", 0),
+    ("rf-mul-exp", R, "FQP.__mul__", "exp = len(b) - degree", "exp = len(b) - degree + 1", 0),
+    ("rf-mul-exp-under", R, "FQP.__mul__", "exp = len(b) - degree", "exp = len(b) - degree - 1", 0),
+    ("rf-mul-alias", R, "FQP.__mul__", "degree = self.degree", "degree = self.degree + 1", 0),
+    ("rf-mul-alias-attr", R, "FQP.__mul__", "degree = self.degree", "degree = len(other.coeffs)", 0),
+    ("rf-mul-tofq-idx", R, "FQP.__mul__", "to_fq(self.modulus_coeffs[i])", "to_fq(self.modulus_coeffs[0])", 0),
+    ("rf-mul-tofq-init", R, "FQP.__mul__", "to_fq(0)", "to_fq(1)", 0),
+    ("rf-mul-poporder", R, "FQP.__mul__", "top = b.pop()\n                exp = len(b) - degree",
+     "exp = len(b) - degree\n                top = b.pop()", 0),
+    ("rf-mul-guard", R, "FQP.__mul__", "while len(b) > degree", "while len(b) >= degree", 0),
+    ("rf-helper-cond", O, "nonzero_modulus_terms", "if coefficient:", "if not coefficient:", 0),
+    ("rf-helper-order", O, "nonzero_modulus_terms", "terms.append((exponent, coefficient))", "terms.append((exponent, exponent))", 0),
+    ("rf-helper-iter", O, "nonzero_modulus_terms", "enumerate(modulus_coeffs)", "enumerate(modulus_coeffs[:1])", 0),
+    ("rf-helper-extra", O, "nonzero_modulus_terms", "    return terms", "    terms.append((0, 1))\n    return terms", 0),
+    ("rf-helper-arg", O, "FQ2.__init__", "nonzero_modulus_terms(self.FQ2_MODULUS_COEFFS)", "nonzero_modulus_terms(coeffs)", 0),
+    ("rf-sgn0-guard", O, "FQP.sgn0", "if not sign:", "if sign:", 0),
+    ("rf-sgn0-val", O, "FQP.sgn0", "sign = all_lower_zero and parity", "sign = all_lower_zero or parity", 0),
+    ("rf-sgn0-zero", O, "FQP.sgn0", "all_lower_zero and coeff_is_zero", "all_lower_zero or coeff_is_zero", 0),
+    ("rf-fq2-sgn0-early", O, "FQ2.sgn0", "return low_parity\n", "return high_parity\n", 0),
+    ("rf-fq2-sgn0-ifexp", O, "FQ2.sgn0", "high_parity if low_is_zero else low_is_zero", "low_is_zero if low_is_zero else high_parity", 0),
+    ("rf-fq2-sgn0-guard", O, "FQ2.sgn0", "if low_parity:", "if high_parity:", 0),
+    ("rf-modint-fq", O, "mod_int", "return x.n % n", "return x.n // n", 0),
+    ("rf-modint-order", O, "mod_int", "    if isinstance(x, FQ):\n        return x.n % n", "    if isinstance(x, FQ):\n        return x.n % (n + 1)", 0),
+]
+
 
 def fn_span(src, qual):
     tree = ast.parse(src)
@@ -289,19 +323,36 @@ def main():
     ap.add_argument("--work", default="/tmp/tie_selftest_fields")
     ap.add_argument("--only", default=None, help="regex on mutation ids")
     ap.add_argument("--targets", default=None, help="comma separated lake targets")
+    ap.add_argument("--skip-missing", action="store_true", help="skip mutations whose token does not occur in --repo")
+    ap.add_argument("--refactored", action="store_true",
+                    help="also run the REFACTORED list (for a snapshot with a refactoring applied); implies --skip-missing")
     a = ap.parse_args()
+    if a.refactored:
+        a.skip_missing = True
     gen_dir = os.path.join(a.lean, "PyEcc", "Gen")
     env = dict(os.environ)
     env["PATH"] = "/opt/veriftools/lean/bin:" + env["PATH"]
     targets = a.targets.split(",") if a.targets else [t for t in TARGETS if os.path.exists(
         os.path.join(a.lean, *t.split(".")) + ".lean")]
     results = []
-    muts = [m for m in MUTATIONS if a.only is None or re.search(a.only, m[0])]
+    muts = [m for m in MUTATIONS + (REFACTORED if a.refactored else []) if a.only is None or re.search(a.only, m[0])]
+    skipped = []
+    # the generated files of the (possibly refactored) tree under test are the baseline
+    rc0, info0 = regenerate(a.repo, gen_dir)
+    if rc0 != 0:
+        raise SystemExit(f"the tree under test does not regenerate: {info0}")
     for mid, rel, fn, old, new, occ in muts:
         repo_mut = os.path.join(a.work, "repo_mut")
         shutil.rmtree(repo_mut, ignore_errors=True)
         shutil.copytree(a.repo, repo_mut, ignore=shutil.ignore_patterns(".git", "__pycache__", ".tox", "*.pyc"))
-        mutate(repo_mut, rel, fn, old, new, occ)
+        try:
+            mutate(repo_mut, rel, fn, old, new, occ)
+        except SystemExit as ex:
+            if not a.skip_missing:
+                raise
+            skipped.append(mid)
+            print(f"{mid:26s} skipped: {ex}", flush=True)
+            continue
         gen_out = os.path.join(a.work, "Gen")
         shutil.rmtree(gen_out, ignore_errors=True)
         shutil.copytree(gen_dir, gen_out)
@@ -339,7 +390,8 @@ def main():
     r = run(["lake", "build"] + targets, cwd=a.lean, env=env)
     print("pristine rebuild:", "ok" if r.returncode == 0 else "FAILED\n" + r.stdout[-2000:])
     bad = [x for x in results if x[4].startswith("NOT")]
-    print(json.dumps({"mutations": len(results), "caught": len(results) - len(bad), "not_caught": [x[0] for x in bad]}))
+    print(json.dumps({"mutations": len(results), "caught": len(results) - len(bad), "not_caught": [x[0] for x in bad],
+                      "skipped": len(skipped)}))
     return 1 if bad or r.returncode != 0 else 0
 
 
